@@ -14,7 +14,11 @@ RULE = ("skeleton documents nesting every schema-valued, schema-array-valued and
         "Non-trivial: every op (>= 1 pointer reference); distinct = operation text")
 TRUSTED = ["python rendering of RFC 6901 pointers + RFC 3986 fragment percent-encoding for the expected targets"]
 
-KEYS = ["", "/", "~", "~0", "~1", "%", " ", "é", "0", "-", "a/b~c", "%25", "x", "01", "a b"]
+KEYS = ["", "/", "~", "~0", "~1", "%", " ", "é", "0", "-", "a/b~c", "%25", "x", "01", "a b", "a+b", "+", "c++", "a&b=c", "?", "#",
+        "a#b", "\"", "\\", "%2F", "%7E0", "~01", "~10", "日本", "😀", "a b+c", ":", "@", "!$'()*,;", "[0]", "{x}", "^a|b$", "\t", "1e0", "-0"]
+# patternProperties keys are also regular expressions: only keys that are valid patterns (and that the driver's matcher reads)
+PKEYS = ["", "/", "~", "~0", "~1", "%", " ", "é", "0", "-", "a/b~c", "%25", "x", "01", "a b", "a+b", "a&b=c", "#", "a#b", "\"", "%2F",
+         "%7E0", "~01", "~10", "日本", ":", "@", "1e0", "-0", "a b+c"]
 ONE_2020 = ["additionalProperties", "contains", "contentSchema", "else", "if", "items", "not", "propertyNames", "then",
             "unevaluatedItems", "unevaluatedProperties"]
 MANY_2020 = ["allOf", "anyOf", "oneOf", "prefixItems"]
@@ -53,15 +57,29 @@ def skeleton(rng, draft, depth, marks, path, locs):
             if kw in used:
                 continue
             used.add(kw)
-            ks = rng.sample(KEYS, rng.randint(1, 3))
+            ks = rng.sample(PKEYS if kw == "patternProperties" else KEYS, rng.randint(1, 3))
             o.set(kw, Obj([(k, skeleton(rng, draft, depth - 1, marks, path + [kw, k], locs)) for k in ks]))
     if not o.kvs:
         return skeleton(rng, draft, 0, marks, path, locs)
     return o
 
 
-def render(segs):
-    return "#" + frag_encode("".join("/" + ptr_escape(s) for s in segs))
+def render(segs, rng=None):
+    """'#' + the RFC 6901 pointer as a URI fragment. With rng: sometimes percent-encode characters that need no encoding
+    (RFC 3986 §2.3/6.2.2.2: an equivalent reference; the library must decode it the same way)."""
+    f = frag_encode("".join("/" + ptr_escape(s) for s in segs))
+    if rng is not None and rng.random() < 0.15:
+        out, i = [], 0
+        while i < len(f):
+            c = f[i]
+            if c == "%":
+                out.append(f[i:i + 3].lower() if rng.random() < 0.5 else f[i:i + 3])
+                i += 3
+                continue
+            out.append("%%%02X" % ord(c) if ord(c) < 128 and c != "/" and rng.random() < 0.3 else c)
+            i += 1
+        f = "".join(out)
+    return "#" + f
 
 
 BAD = ["#/$defs/S/~2", "#/$defs/S/~", "#/$defs/S/nosuch", "#/$defs/S/allOf/01", "#/$defs/S/allOf/-", "#/$defs/S/allOf/99",
@@ -69,7 +87,13 @@ BAD = ["#/$defs/S/~2", "#/$defs/S/~", "#/$defs/S/nosuch", "#/$defs/S/allOf/01", 
        "#/$defs/S/type", "#/$defs/S/enum/0", "#/$defs/S/const", "#/$defs/S/not", "#/$defs/S/if/then", "#/$defs/S/properties",
        "#/$defs/S/properties/nosuch", "#/$defs/S/title", "#/$defs/S/minimum", "#/$defs/S/allOf/0/", "#/$defs/S//", "#/$defs/S/%zz",
        "#/$defs/S/allOf/1e0", "#/$defs/S/allOf/０", "#/$defs", "#/$defs/S/items/0", "#/$defs/S/dependentRequired/a", "#/$defs/S/default",
-       "#/$defs/S/examples/0", "#/$defs/S/$vocabulary/x", "#/$defs/S/Items", "#/$defs/S/allof/0"]
+       "#/$defs/S/examples/0", "#/$defs/S/$vocabulary/x", "#/$defs/S/Items", "#/$defs/S/allof/0",
+       # indices that wrap onto 0 / 1 in 64-bit and 32-bit arithmetic, or overflow strconv
+       "#/$defs/S/allOf/18446744073709551616", "#/$defs/S/allOf/18446744073709551617", "#/$defs/S/allOf/4294967296",
+       "#/$defs/S/allOf/4294967297", "#/$defs/S/allOf/9223372036854775808", "#/$defs/S/allOf/36893488147419103232",
+       "#/$defs/S/allOf/340282366920938463463374607431768211456", "#/$defs/S/allOf/00", "#/$defs/S/allOf/0.0", "#/$defs/S/allOf/1_0",
+       "#/$defs/S/allOf/%30%30", "#/$defs/S/allOf/0%20", "#/$defs/S/allOf/", "#/$defs/S/allOf/0/x", "#/$defs/S/allOf/0~0",
+       "#$defs/S", "#//$defs/S", "#/$defs/S/allOf/0#", "#/$defs/s", "#/$DEFS/S", "#/$defs/S/properties/a+b", "#/$defs/S/properties/a%20b"]
 
 
 def gen(rng, tier, n):
@@ -84,11 +108,20 @@ def gen(rng, tier, n):
         expect, insts = [], []
         chosen = rng.sample(locs, min(len(locs), 4))
         for i, (segs, m) in enumerate(chosen):
-            props.kvs.append(("r%d" % i, Obj([("$ref", render(segs))])))
+            props.kvs.append(("r%d" % i, Obj([("$ref", render(segs, rng))])))
             for mm in set([m] + rng.sample(marks, min(2, len(marks)))):
                 insts.append(Obj([("r%d" % i, mm)]))
                 expect.append(mm == m)
         root = Obj(([("$schema", "http://json-schema.org/draft-07/schema#")] if draft == "7" else []) + [(defs_kw, Obj([("S", sk)]))])
+        if draft == "7" and len(locs) >= 2 and rng.random() < 0.3:
+            # a fragment-only $id is a plain-name anchor in draft-07, whatever it looks like: one leaf is *named* like the pointer of
+            # another location. A '#/...' reference is still a JSON Pointer and must select the location, not the name-bearer.
+            (sa, _), (sb, _) = rng.sample(locs, 2)
+            leaf = root
+            for seg in sa:
+                leaf = leaf.get(seg) if isinstance(leaf, Obj) else leaf[int(seg)]
+            if isinstance(leaf, Obj):
+                leaf.set("$id", render(sb))
         if bad:
             if isinstance(sk, Obj) and sk.get("allOf") is None and sk.get("const") is None:
                 sk.set("allOf", [Obj([("const", "zz")])])
@@ -99,7 +132,8 @@ def gen(rng, tier, n):
                 b = rng.choice(BAD)
                 rest = b[len("#/$defs/S/"):] if b.startswith("#/$defs/S/") else ""
                 first = rest.split("/")[0]
-                if first in ("not", "if", "items", "properties", "default", "examples", "title") and first in keys and not rest.endswith("nosuch"):
+                if first in ("not", "if", "items", "properties", "default", "examples", "title") and first in keys and not rest.endswith("nosuch") \
+                        and not rest.startswith("properties/a"):
                     continue
                 break
             b = b.replace("$defs", defs_kw)
